@@ -1252,6 +1252,23 @@ static void struct_initializer2(Token **rest, Token *tok, Initializer *init, Mem
   *rest = tok;
 }
 
+// The remaining initializers of a union's list. A designated one selects
+// (and initializes) a member; the last one wins (C11 6.7.9p19). Others are excess.
+static void union_rest(Token **rest, Token *tok, Initializer *init) {
+  while (!consume_end(rest, tok)) {
+    tok = skip(tok, ",");
+    if (equal(tok, ".")) {
+      Member *mem = struct_designator(&tok, tok, init->ty);
+      if (mem != init->mem)
+        *init->children[mem->idx] = *new_initializer(mem->ty, false);
+      init->mem = mem;
+      designation(&tok, tok, init->children[mem->idx]);
+    } else {
+      tok = skip_excess_element(tok);
+    }
+  }
+}
+
 static void union_initializer(Token **rest, Token *tok, Initializer *init) {
   // Unlike structs, union initializers take only one initializer,
   // and that initializes the first union member by default.
@@ -1260,8 +1277,7 @@ static void union_initializer(Token **rest, Token *tok, Initializer *init) {
     Member *mem = struct_designator(&tok, tok->next, init->ty);
     init->mem = mem;
     designation(&tok, tok, init->children[mem->idx]);
-    consume(&tok, tok, ",");
-    *rest = skip(tok, "}");
+    union_rest(rest, tok, init);
     return;
   }
 
@@ -1281,8 +1297,7 @@ static void union_initializer(Token **rest, Token *tok, Initializer *init) {
 
   if (equal(tok, "{")) {
     initializer2(&tok, tok->next, init->children[init->mem->idx]);
-    consume(&tok, tok, ",");
-    *rest = skip(tok, "}");
+    union_rest(rest, tok, init);
   } else {
     initializer2(rest, tok, init->children[init->mem->idx]);
   }
